@@ -294,7 +294,10 @@ def gen_command(rnd, names, kinds=None):
     """a command dict: name, case_args (model), argv builder inputs"""
     k = rnd.choice(kinds or ["chmod", "chmod", "chown", "xattr", "xattr", "acl", "acl", "strip", "migrate", "delete"])
     c = {"name": k, "patterns": [], "exclude": []}
-    if k not in ("strip", "migrate"):
+    if k == "strip":
+        # `pna strip ARCHIVE FILES...`: without FILES every entry, with FILES only the selected ones (fix 4d97c0da)
+        c["patterns"] = gen_patterns(rnd, names) if rnd.random() < 0.5 else []
+    elif k != "migrate":
         c["patterns"] = gen_patterns(rnd, names) if rnd.random() > 0.04 or k == "delete" else []
     if k == "chmod":
         c["mode"] = rnd.choice(MODES)
@@ -390,7 +393,7 @@ def argv(c, archive, strategy, password, output=None):
         tail = []
         if c["keep_private"] is not None:
             tail = ["--keep-private"] + ([",".join(c["keep_private"])] if c["keep_private"] else [])
-        return ["strip"] + opts + [archive] + tail
+        return ["strip"] + opts + tail + ["--", archive] + c["patterns"]
     if k == "migrate":
         return ["experimental", "migrate"] + opts + ["--output", output, "--", archive]
     if k == "delete":
